@@ -250,6 +250,9 @@ pub enum TyperError {
     /// A property was declared twice
     PipelinePropertyDuplicate(SourceLocation),
 
+    /// Pipeline name was already used by another pipeline
+    PipelineDuplicate(SourceLocation),
+
     /// A graphics state was used in a non-graphics pipeline
     PipelinePropertyRequiresGraphicsPipeline(SourceLocation),
 
@@ -1091,6 +1094,11 @@ impl CompileError for TyperExternalError {
             }
             TyperError::PipelinePropertyDuplicate(loc) => w.write_message(
                 &|f| write!(f, "property declared multiple times"),
+                *loc,
+                Severity::Error,
+            ),
+            TyperError::PipelineDuplicate(loc) => w.write_message(
+                &|f| write!(f, "pipeline with the same name is already defined"),
                 *loc,
                 Severity::Error,
             ),
